@@ -457,7 +457,8 @@ def classify_report(text):
   if out['kind'] == 'stack-overflow':
     # the innermost frames of a runaway recursion are arbitrary: use the functions of the cycle instead
     cyc = collections.Counter(short_fn(fn) for fn, path in frames if path.startswith(repo + '/') or path.startswith('/repo/'))
-    key = '|'.join(sorted(n for n, c in cyc.most_common(3)))
+    rec = sorted(n for n, c in cyc.items() if c >= 3)[:3]
+    key = '|'.join(rec or [n for n, c in cyc.most_common(1)])
   out['bucket'] = out['fingerprint'] = 'asan:%s:%s' % (out['kind'], key)
   out['summary'] = '%s in %s' % (out['kind'], ' <- '.join(names[:4]))
   return out
@@ -768,13 +769,28 @@ class Ctx37:
     self.finding_what = {}
     self.inconclusive = collections.Counter()
     self.minimized = 0
+    self.family_reported = collections.Counter()
+    self.suppressed = collections.Counter()
+    self.suppressed_fps = set()
 
   def finding(self, fp, msg, replay):
     fp = fp[:150]
     msg = '[root cause: %s] %s' % (root_cause(fp), msg)
+    first = fp not in self.findings
     self.findings[fp] += 1
     if fp not in self.finding_what:
       self.finding_what[fp] = msg[:300]
+    if self.ck.known(fp) is None:
+      # one systematic defect (e.g. a mutant of the typed reader) shows up at hundreds of sites: report the first three
+      # sites of a family (fingerprint up to the second ':'), count the others in the evidence only
+      fam = ':'.join(fp.split(':')[:2])
+      if first:
+        self.family_reported[fam] += 1
+        if self.family_reported[fam] > 3:
+          self.suppressed_fps.add(fp)
+          self.suppressed[fam] += 1
+      if fp in self.suppressed_fps:
+        return
     self.ck.violation(msg, replay, bucket=fp, fingerprint=fp)
     self.ck.label('finding' if self.ck.known(fp) is None else 'known-finding')
 
@@ -843,7 +859,7 @@ def main(ck):
   parts = os.environ.get('VERIF_C37_PARTS', 'ab')     # development aid: run only one part
   if 'a' not in parts:
     nslots = 0
-  fuzz_seconds = ck.budget(38, 600)
+  fuzz_seconds = ck.budget(32, 540)
   # half of the fuzzer processes use the ASan + coverage build (guided, finds memory errors, a few executions per second on
   # this machine), the other half the rel library without instrumentation (blind mutation of the same seeds, hundreds of
   # executions per second; its crashes are re-run under ASan for the report)
@@ -869,6 +885,7 @@ def main(ck):
 
   ck.extra['findings'] = dict(S.findings)
   ck.extra['inconclusive'] = dict(S.inconclusive)
+  ck.extra['unreported_sites_of_reported_families'] = dict(S.suppressed)
   ck.rule = ('(a) libFuzzer inputs (mutations of modelgen/schema/corpus/URDF/meta-element seeds, max_len %d): non-trivial = '
              'reached the MJCF/URDF reader (well-formed XML with root mujoco/robot), distinct by content hash. '
              '(b) schema-generated pairs (conforming D, D + one labelled violation): all sites of the small violation kinds '
@@ -947,8 +964,8 @@ def part_b(ck, S, g, exe_rel, exe_fuzz):
   stats = collections.Counter()
   per_kind = {k: collections.Counter() for k in gs.KINDS}
 
-  asan_budget = [float(ck.budget(4, 300))]      # seconds of extra ASan executions of sampled random documents
-  asan_budget_hostile = [float(ck.budget(10, 900))]   # ... of hostile-value documents (rotating start context per seed)
+  asan_budget = [float(ck.budget(4, 120))]      # seconds of extra ASan executions of sampled random documents
+  asan_budget_hostile = [float(ck.budget(10, 300))]   # ... of hostile-value documents (rotating start context per seed)
 
   t_asan = [0.0]
   t_crash = [0.0]
@@ -1082,8 +1099,8 @@ def part_b(ck, S, g, exe_rel, exe_fuzz):
   def hostile_sweep(ctx, doc, node):
     full = not ck.quick
     attrs = list(ctx.attrs)
-    if not full and len(attrs) > 4:
-      attrs = sweep_rng.sample(attrs, 4)
+    if not full and len(attrs) > 3:
+      attrs = sweep_rng.sample(attrs, 3)
     for a in attrs:
       vals = HOSTILE[hostile_class(a)]
       if not full:
@@ -1185,7 +1202,7 @@ def part_b(ck, S, g, exe_rel, exe_fuzz):
     sweep = [s for s in sweep if not (s.kind == 'unknown_child' and (s.detail == 'foreign') == (order_rng.random() < 0.5))]
     sweep = [s for s in sweep if not (s.kind in ('bad_enum', 'bad_bool') and order_rng.random() < 0.4)]
   order_rng.shuffle(sweep)
-  nbig = ck.budget(450, 12000)
+  nbig = ck.budget(450, 6000)
   big = []
   for k in BIG_KINDS:
     sites = list(g.sites[k])
@@ -1193,7 +1210,7 @@ def part_b(ck, S, g, exe_rel, exe_fuzz):
     big += sites[:max(1, nbig // len(BIG_KINDS))] if len(sites) > nbig // len(BIG_KINDS) else sites
   plan = sweep + big
   if not ck.quick:
-    plan = plan + sweep + sweep      # three different base documents per small-kind site
+    plan = plan + sweep      # two different base documents per small-kind site
   ck.extra['plan'] = dict(small_kind_sites=nsites_small, small_kind_sites_enumerated=len(sweep), big_kind_sites_sampled=len(big), total=len(plan))
   pos = [0]
 
@@ -1409,12 +1426,19 @@ def regressions(ck):
   os.makedirs(WD, exist_ok=True)
   S = Ctx37(ck)
   exe_fuzz = vb.build_exe('fuzz_xml', [SRC], variant='fuzz', extra_ldflags=['-fsanitize=fuzzer', '-rdynamic'])
+  exe_rel = vb.build_exe('c37_worker', [SRC], variant='rel', extra_cflags=['-DVF_PLAIN_MAIN', '-g'], extra_ldflags=['-rdynamic'])
   w = Worker(exe_fuzz, True, WD, spares=1)
+  wr = Worker(exe_rel, False, WD, spares=1)
   res = collections.Counter()
   try:
     for e in json.load(open(idxf))['replays']:
       data = open(os.path.join(d, e['file']), 'rb').read()
-      r = w.run(data, load=True, timeout=120)
+      if e['expect'] == 'crash':
+        r = w.run(data, load=True, timeout=120)       # memory errors need the ASan build
+      else:
+        r = wr.run(data, load=True, timeout=30)
+        if r.died:
+          r = w.run(data, load=True, timeout=120)
       origin = 'regression:' + e['file']
       before = sum(S.findings.values())
       if handle_common(S, r, data, origin):
@@ -1432,6 +1456,7 @@ def regressions(ck):
       ck.label('regression:' + ('still-present' if sum(S.findings.values()) > before else 'passes'))
   finally:
     w.stop()
+    wr.stop()
   ck.extra['regressions'] = dict(res)
 
 
@@ -1456,13 +1481,18 @@ TECHNIQUE = ('coverage-guided fuzzing (libFuzzer + ASan on mj_parseXMLString/mj_
              '+ grammar-based generation from src/xml/mjcf.schema: conforming documents and enumerated single-violation documents, '
              'judged through a supervised native worker')
 LEVEL_TEXT = '''(a) libFuzzer mutates seeds generated at run time (modelgen, schema documents, small shipped models, URDF, meta elements)
-with a dictionary extracted from mjcf.schema; the target checks "spec/model or NULL + message", handler restoration and
-mj_loadXML == parse+compile, and records mju_error calls that reach the global handler and C++ exceptions that leave the C API.
-(b) for every violation site of the schema (unknown attribute/child, duplicated ? child, bad enum/bool keyword, required attribute
-missing, presence constraints exclusive/together/oneof/variant, out-of-range facets: enumerated; arity and non-numeric tokens:
-sampled) a conforming base document and the same document with exactly that violation are run: the violation must be rejected,
-the base must not be rejected with a schema/type-layer phrase. Sampled in the document dimension, enumerated in the site dimension
-for the small kinds.'''
+with a dictionary extracted from mjcf.schema: half of the processes use the ASan + coverage build (guided), half the
+uninstrumented rel library (blind, ~100x more executions; crashes re-run under ASan). The target checks "spec/model or NULL +
+message", handler restoration and mj_loadXML == parse+compile, and records mju_error calls that reach the global handler and C++
+exceptions that leave the C API.
+(b) through a supervised native worker: (b0) every element context of the schema as a minimal instance and with every optional
+attribute added alone (differential schema vs typed reader); (b1) hostile attribute values (format strings, huge/negative
+numbers, long lists) on accepted instances, crash/escape oracle only, sampled under ASan; (b2) for every violation site of the
+schema (unknown attribute/child, duplicated ? child, bad enum/bool keyword, required attribute missing, presence constraints
+exclusive/together/oneof/variant, out-of-range facets: enumerated; arity and non-numeric tokens: sampled) a conforming base
+document and the same document with exactly that violation: the violation must be rejected, the base must not be rejected with a
+schema/type-layer phrase. Sampled in the document dimension, enumerated in the site dimension for the small kinds.
+Committed reproducers of reported findings (replays/C37) are re-run first.'''
 LEVEL_NOTE = '''Trusted: the verification build, the tinyxml2-on-expat shim (lexical XML edge cases are not judged), the tree's own
 schema-language parser (doc/generate/mjcf_schema.py). No `requires` constraint and no `!` child exist in this schema, so these
 two kinds have no sites. Time-outs/OOM are inconclusive. UBSan is not part of the fuzz variant.'''
